@@ -27,7 +27,8 @@ CheckCase(c) ==
          LET zc == ZeroCrossing(c.y)  win == T0Window(Len(c.x), zc, c.fr) IN
          IF c.res.k = "exc" THEN Verdict(id, "fit_t0 raised " \o c.res.t, FALSE)
          ELSE Verdict(id, "fit_t0: root of the weighted straight line through the window around the zero crossing",
-                      RClose(c.res.v, LinFitRoot(c.x, c.y, c.dy, win), "1/100000000", "0"))
+                      LET root == LinFitRoot(c.x, c.y, c.dy, win) IN
+                      RClose(c.res.v, IF Has(c, "sqrt") /\ c.sqrt THEN RSqrt(root) ELSE root, "1/100000000", "0"))
     [] c.ev = "trunc" ->      \* either an exception, or exactly the observables of the records that precede the cut
          IF c.res.k = "exc" THEN TRUE
          ELSE LET reps == Truncated(c.reps, c.r, c.bounds, c.cut) IN
